@@ -8,7 +8,7 @@
    digest); [sigok c := c <> 124 /\ c <> 10]. *)
 From Coq Require Import List NArith ZArith.
 Import ListNotations.
-From TV Require Import C23.Model C23.Proofs C23.Proofs1 C23.Proofs2 C23.Proofs3.
+From TV Require Import Lib.Obs C23.Model C23.Run C23.Proofs C23.Proofs1 C23.Proofs2 C23.Proofs3 C23.Proofs4 C23.Proofs5.
 
 Definition mac_shape (mac : bytes -> bytes -> bytes) : Prop :=
   forall k m, mac k m <> [] /\ Forall sigok (mac k m).
@@ -189,6 +189,105 @@ Theorem C23_v1_cross_name_replay_refuted :
     = Ok (Some v).
 Proof. exact v1_cross_name_replay. Qed.
 Print Assumptions C23_v1_cross_name_replay_refuted.
+
+(* ------------------------------------------------------------------------------------
+   The Python API: secrets, names and values given as str (code points, utf8() modelled in
+   Coq) or bytes; the signed value handed back as bytes or str, or None.
+   [arg_ok]: a str is a list of Unicode code points (< 0x110000), a bytes object a list of bytes. *)
+
+(* Round trip through the API for ALL names (str or bytes, non-ASCII included), all values,
+   both secret forms: decode(create(name, value)) = utf8(value). *)
+Theorem C23_api_roundtrip_v2 :
+  forall mac1 mac2, mac_shape mac1 -> mac_shape mac2 ->
+  forall sa name value t kv y xa maxage now minv,
+    arg_ok value ->
+    create_api mac1 mac2 sa name value 2 t kv = Ok y -> utf8 xa = y ->
+    (minv <= 2)%Z -> (now - maxage <= t)%Z ->
+    decode_api mac1 mac2 sa name (Some xa) maxage now minv = Ok (Some (utf8 value)).
+Proof. intros; eapply api_roundtrip_v2; eauto. Qed.
+Print Assumptions C23_api_roundtrip_v2.
+
+Theorem C23_api_roundtrip_v1 :
+  forall mac1 mac2, mac_shape mac1 -> mac_shape mac2 ->
+  forall sa name value t kv y xa maxage now minv,
+    arg_ok value ->
+    create_api mac1 mac2 sa name value 1 t kv = Ok y -> utf8 xa = y ->
+    (minv <= 1)%Z -> (1 <= t)%Z -> (now - maxage <= t)%Z -> (t <= now + 31 * 86400)%Z ->
+    decode_api mac1 mac2 sa name (Some xa) maxage now minv = Ok (Some (utf8 value)).
+Proof. intros; eapply api_roundtrip_v1; eauto. Qed.
+Print Assumptions C23_api_roundtrip_v1.
+
+(* decode_signed_value never raises for str, bytes or None input. *)
+Theorem C23_api_decode_never_raises :
+  forall mac1 mac2 sa name x maxage now minv,
+    (minv <= 2)%Z -> exists r, decode_api mac1 mac2 sa name x maxage now minv = Ok r.
+Proof. intros; eapply api_decode_total; eauto. Qed.
+Print Assumptions C23_api_decode_never_raises.
+
+(* get_signature_key_version returns the key version create_signed_value wrote
+   (key_version or 0) for format 2, None for format 1; it is total by construction. *)
+Theorem C23_key_version_of_created_v2 :
+  forall mac1 mac2 sa name value t kv y xa,
+    create_api mac1 mac2 sa name value 2 t kv = Ok y -> utf8 xa = y ->
+    get_signature_key_version xa = Some (match kv with Some z => z | None => 0%Z end).
+Proof. intros; eapply key_version_of_created_v2; eauto. Qed.
+Print Assumptions C23_key_version_of_created_v2.
+
+Theorem C23_key_version_of_created_v1 :
+  forall mac1 mac2, mac_shape mac1 -> mac_shape mac2 ->
+  forall sa name value t kv y xa,
+    arg_ok value ->
+    create_api mac1 mac2 sa name value 1 t kv = Ok y -> utf8 xa = y ->
+    get_signature_key_version xa = None.
+Proof. intros mac1 mac2 H1 H2; intros; eapply (key_version_of_created_v1 mac1 mac2 H1 H2); eauto. Qed.
+Print Assumptions C23_key_version_of_created_v1.
+
+(* ------------------------------------------------------------------------------------
+   Tampering with an authentic format-2 value, under the HMAC section hypotheses. *)
+
+(* (a) signed part intact, signature bytes changed in ANY way: rejected under every name and
+   clock by any reader holding the issuing key under that key version.  Needs only the digest shape. *)
+Theorem C23_v2_tampered_signature_rejected :
+  forall mac1 mac2, mac_shape mac1 -> mac_shape mac2 ->
+  forall s name' kvn t name v k sg' maxage now minv,
+    secret_key s kvn = Some k -> (minv <= 2)%Z ->
+    sg' <> mac2 k (to_sign2 kvn t name v) ->
+    decode mac1 mac2 s name' (to_sign2 kvn t name v ++ sg') maxage now minv = Ok None.
+Proof. intros; eapply tamper_signature_v2; eauto. Qed.
+Print Assumptions C23_v2_tampered_signature_rejected.
+
+(* (b) signature intact, signed part changed in ANY way (any reader, any secret): idealised
+   HMAC = fixed digest lengths (SHA-1's shorter than SHA-256's) and injectivity. *)
+Theorem C23_v2_tampered_signed_part_rejected :
+  forall mac1 mac2, mac_shape mac1 -> mac_shape mac2 ->
+  forall L1 L2, (forall k m, length (mac1 k m) = L1) -> (forall k m, length (mac2 k m) = L2) -> (L1 < L2)%nat ->
+  (forall k m k' m', mac2 k m = mac2 k' m' -> k = k' /\ m = m') ->
+  forall s name' k S S' maxage now minv,
+    (minv <= 2)%Z -> S' <> S ->
+    decode mac1 mac2 s name' (S' ++ mac2 k S) maxage now minv = Ok None.
+Proof. intros; eapply tamper_signed_part_v2; eauto. Qed.
+Print Assumptions C23_v2_tampered_signed_part_rejected.
+
+(* Every single-byte substitution, at any position, of an authentic format-2 value is
+   rejected by the issuing secret, under every name and clock. *)
+Theorem C23_v2_byte_substitution_rejected :
+  forall mac1 mac2, mac_shape mac1 -> mac_shape mac2 ->
+  forall L1 L2, (forall k m, length (mac1 k m) = L1) -> (forall k m, length (mac2 k m) = L2) -> (L1 < L2)%nat ->
+  (forall k m k' m', mac2 k m = mac2 k' m' -> k = k' /\ m = m') ->
+  forall s name v t kv y a c c' b name' maxage now minv,
+    create mac1 mac2 s name v 2 t kv = Ok y -> (minv <= 2)%Z ->
+    y = a ++ c :: b -> c' <> c ->
+    decode mac1 mac2 s name' (a ++ c' :: b) maxage now minv = Ok None.
+Proof. intros; eapply byte_substitution_rejected_v2; eauto. Qed.
+Print Assumptions C23_v2_byte_substitution_rejected.
+
+(* ------------------------------------------------------------------------------------
+   The executable model satisfies the property checker on EVERY input (every MAC table,
+   every operation, every provenance hint): whatever check_case demands of the
+   implementation's observable is true of the model's. *)
+Theorem C23_check_accepts_model : forall c, check_case c (run_case c) = true.
+Proof. exact check_accepts_model. Qed.
+Print Assumptions C23_check_accepts_model.
 
 (* The premises are satisfiable (a MAC of the required shape that separates keys), and the
    round-trip hypotheses have non-trivial instances (Proofs3: roundtrip_v2_instance,
